@@ -17,6 +17,7 @@ class Prog:
         self.rules = []
         self.outputs = []
         self.facts = {}  # name -> list of tuples (strings)
+        self.aux_facts = {}  # further fact files (file stem -> rows) that are read through explicit IO directives
         self.meta = {"outputs": [], "fragments": []}
         self.k = 0
 
@@ -423,6 +424,23 @@ def f_itercnt(p):
     return n
 
 
+def f_two_inputs(p):
+    """a relation filled by two .input directives (two fact files)"""
+    r = p.r
+    n = p.fresh("tin")
+    p.decl(n, [("x", "number"), ("y", "number")], r.choice(["", "btree", "brie"]))
+    dom = p.meta["domain"]
+    a = sorted(set((r.randrange(dom), r.randrange(dom)) for _ in range(r.randrange(2, 12))))
+    b = sorted(set((r.randrange(dom), r.randrange(dom)) for _ in range(r.randrange(3, 14))) | set(a[:1]))
+    p.facts[n] = [("%d" % x, "%d" % y) for x, y in a]
+    p.aux_facts[n + "_b"] = [("%d" % x, "%d" % y) for x, y in b]
+    p.rule('.input %s(IO="file", filename="%s_b.facts")' % (n, n))
+    m = p.fresh("tid")
+    p.decl(m, [("x", "number"), ("z", "number")])
+    p.rule("%s(x,z) :- %s(x,y), e1(y,z)." % (m, n))
+    return m
+
+
 def f_io_relation(p):
     """a relation that is both .input and .output (no rules of its own) and feeds a derived relation"""
     r = p.r
@@ -462,7 +480,7 @@ def f_typed_input(p):
 
 
 FRAGMENTS = [f_exists, f_exists_idx, f_facts, f_index_brie, f_outer_aggr2, f_filter, f_join, f_join3, f_tc, f_mutual, f_negation, f_aggr, f_outer_aggr, f_strings, f_records, f_adt, f_eqrel, f_multi,
-             f_arith, f_indexed, f_eqrel_input, f_typed_input, f_io_relation, f_itercnt]
+             f_arith, f_indexed, f_eqrel_input, f_typed_input, f_io_relation, f_itercnt, f_two_inputs]
 
 
 def f_input_derived(p):
@@ -486,7 +504,7 @@ def gen_c21(seed, size="quick"):
     derived relations apart); often with eqrel relations, eqrel / brie / typed input relations"""
     rr = random.Random(seed ^ 0x21)
     always = tuple(f for f, pr in ((f_eqrel, 0.3), (f_eqrel_input, 0.4), (f_typed_input, 0.4), (f_io_relation, 0.5)) if rr.random() < pr)
-    return gen_c03(seed, size, exclude=(f_input_derived,), always=always)
+    return gen_c03(seed, size, exclude=(f_input_derived, f_two_inputs), always=always)
 
 
 def gen_c20(seed, size="quick"):
